@@ -357,6 +357,18 @@ def analyse(F, b, params):
     for bi, t in calls_in(b, lambda t: t['callee'] in ('std::cmp::PartialEq::eq', 'std::cmp::PartialEq::ne')):
         a0 = strip_payload(pv.of_operand(t['args'][0]))
         a1 = strip_payload(pv.of_operand(t['args'][1]))
+        def some_of(z):
+            # Some(k) compared with the target option as a whole: `Some(v.key()) == self.target.as_ref()`
+            if isinstance(z, tuple) and z and z[0] == 'aggr' and z[1].endswith('Option::Some') and len(z[2]) == 1:
+                return strip_payload(z[2][0])
+            return z
+
+        def opt_of(z):
+            while isinstance(z, tuple) and z and z[0] == 'call' and z[1] in ('std::option::Option::as_ref', 'std::option::Option::as_deref', 'std::option::Option::as_mut') and z[2]:
+                z = strip_payload(z[2][0])
+            return z
+        if some_of(a0) is not a0 or some_of(a1) is not a1:
+            a0, a1 = (some_of(a0), opt_of(a1)) if some_of(a0) is not a0 else (opt_of(a0), some_of(a1))
         for x, y in ((a0, a1), (a1, a0)):
             if x == KEYFAR and term_mentions(y, lambda z: z == ('param', 1)):
                 te, fe = cfg.bool_edges(t['dst']['l'], t['target'])
